@@ -136,7 +136,9 @@ func argDirectives(b *strings.Builder, path string, ds ast.DirectiveList, vars m
 			continue
 		}
 		b.WriteString("args " + path + "@" + d.Name + " = ")
-		RenderValue(b, d.ArgumentMap(vars))
+		am := d.ArgumentMap(vars)
+		RenderValue(b, am)
+		ScribbleExcept(am, vars)
 		b.WriteByte('\n')
 		bump(&probes.argmaps)
 	}
